@@ -1913,10 +1913,12 @@ def load_vi_bindings() -> KeyBindingsBase:
         w = event.app.layout.current_window
         buff = event.current_buffer
 
-        if w and w.render_info:
+        if w and w.render_info and buff.document.current_line:
             width = w.render_info.window_width
             start = buff.document.get_start_of_line_position(after_whitespace=False)
-            start += int(min(width / 2, len(buff.document.current_line)))
+            # (Never past the last character of the line: the motion is
+            # inclusive, an operator would take the line break as well.)
+            start += int(min(width / 2, len(buff.document.current_line) - 1))
 
             return TextObject(start, type=TextObjectType.INCLUSIVE)
         return TextObject(0)
